@@ -447,10 +447,52 @@ def _labels(case):
 
 
 def SHARDS(tier):
-    return [{}] if tier == "quick" else [{} for _ in range(16)]
+    return [{}] if tier == "quick" else [{} for _ in range(16)] + [{"part": "atheris", "k": k} for k in range(2)]
+
+
+def run_atheris(ctx):
+    """coverage-guided campaign on the URI parser (libFuzzer through atheris); the target applies check_uri_string and raises for
+    anything that is not an open known finding"""
+    import glob
+    import os
+    import shutil
+    import subprocess
+    import sys
+    import tempfile
+    from vlib.driver import ROOT
+    tmp = tempfile.mkdtemp(prefix="c19fz_", dir="/var/tmp")
+    try:
+        corpus = os.path.join(tmp, "corpus")
+        os.makedirs(corpus)
+        for i, sd in enumerate(["PYRO:obj@host:55", "PYRONAME:n@[::1]:9", "PYROMETA:a,b@./u:sock", "pyro:o@:1", "PYRONAME:x"]):
+            with open(os.path.join(corpus, "s%d" % i), "w") as f:
+                f.write(sd)
+        runs = ctx.n(20000, 3000000)
+        r = subprocess.run([sys.executable, os.path.join(ROOT, "fuzz", "fuzz_wire.py"), "uri", corpus, "-runs=%d" % runs, "-seed=%d" % (ctx.seed + 1 + ctx.shard.get("k", 0)),
+                            "-max_len=60", "-only_ascii=%d" % (ctx.shard.get("k", 0) % 2), "-artifact_prefix=" + tmp + "/"],
+                           stdout=subprocess.PIPE, stderr=subprocess.STDOUT, text=True, cwd=tmp)
+        done = [l for l in r.stdout.splitlines() if "DONE" in l]
+        ctx.notes["atheris_runs"] = runs
+        ctx.notes["atheris_summary"] = (done[0].strip() if done else r.stdout[-200:])[:200]
+        ctx.evaluations += runs
+        crashes = glob.glob(os.path.join(tmp, "crash-*"))
+        for c in crashes[:3]:
+            try:
+                s_ = open(c, "rb").read().decode("utf-8")
+            except UnicodeDecodeError:
+                continue
+            case = {"s": s_}
+            ctx.observe(case, run_case(case), True, ["atheris"])
+        if r.returncode != 0 and not crashes:
+            raise RuntimeError("atheris campaign failed: " + r.stdout[-600:])
+        ctx.count({"kind": "atheris-campaign", "runs": runs}, True, ["atheris-campaign"])
+    finally:
+        shutil.rmtree(tmp, ignore_errors=True)
 
 
 def run(ctx):
+    if ctx.shard.get("part") == "atheris":
+        return run_atheris(ctx)
     from Pyro5 import config
     assert config.NS_PORT == NS_PORT
     n = ctx.n(6000, 40000)
